@@ -444,6 +444,7 @@ impl Prop for C12 {
         // 2 = pop only at the end (the owner calls try_read again before popping)
         c.drop_mode = rng.below(3) as u8;
         c.use_fd0 = rng.chance(1, 400);
+        c.real_socket = rng.chance(1, 25);
         c.to_json()
     }
     fn exec(&self, case: &J, st: &mut Stats) -> Result<RunOut, String> {
@@ -464,6 +465,14 @@ impl Prop for C12 {
         } else {
             _shared = Some(crate::fds::FD0_LOCK.read().unwrap_or_else(|e| e.into_inner()));
             _exclusive = None;
+        }
+        if case.real_socket {
+            let out = exec_real_socket(&case, &m, sched, st);
+            if case.use_fd0 {
+                // SAFETY: see below.
+                unsafe { libc::close(0) };
+            }
+            return out;
         }
         let mut conn = Conn::new(case.stream.clone(), case.limit);
         let mut cur = SchedCursor::new(sched);
@@ -716,6 +725,165 @@ impl Prop for C12 {
             Err(_) => vec![],
         }
     }
+}
+
+/// C12 without the stream stub: HttpConnection<UnixStream> over a real socketpair, descriptors
+/// passed with SCM_RIGHTS by the kernel (so vmm-sys-util's recvmsg / control-message code runs too).
+/// One message per scheduled read; the connection reads until the socket is empty.
+fn exec_real_socket(case: &ConnCase, m: &crate::model::ModelOut, sched: &[gen::SOp], st: &mut Stats) -> Result<RunOut, String> {
+    use std::os::unix::net::UnixStream;
+    use vmm_sys_util::sock_ctrl_msg::ScmSocket;
+    let (tx, rx) = UnixStream::pair().map_err(|e| format!("socketpair: {}", e))?;
+    rx.set_nonblocking(true).map_err(|e| e.to_string())?;
+    let mut conn = micro_http::HttpConnection::new(rx);
+    if let Some(l) = case.limit {
+        conn.set_payload_max_size(l);
+    }
+    st.probe("real_socketpair_run");
+    let len = case.stream.len();
+    let mut cur = SchedCursor::new(sched);
+    let mut pos = 0usize;
+    let mut pipes: Vec<Pipe> = Vec::new();
+    let mut claims: std::collections::VecDeque<usize> = std::collections::VecDeque::new();
+    let mut claimed = 0usize;
+    let mut done_before = 0usize;
+    let mut delivered = 0usize;
+    let mut kept: Vec<std::fs::File> = Vec::new();
+    let mut data_reads = 0usize;
+    let mut sig = Sig::new();
+    let mut nontrivial = false;
+    let mut step = 0usize;
+    let mut result: Option<Violation> = None;
+    let mut tx = Some(tx);
+    'run: loop {
+        let op = match cur.next(pos, len) {
+            Some(op) => op,
+            None => break,
+        };
+        step += 1;
+        st.steps += 1;
+        let mut sent_fds = 0usize;
+        if let RdOp::Data(n, _) = op {
+            let k = n.min(len - pos).min(WINDOW);
+            let want = (case.fd_plan.get(data_reads).cloned().unwrap_or(0) as usize).min(253);
+            data_reads += 1;
+            let mut wr: Vec<RawFd> = Vec::new();
+            for _ in 0..want {
+                match make_pipe() {
+                    Ok((p, w)) => {
+                        pipes.push(p);
+                        wr.push(w);
+                    }
+                    Err(e) => return Err(e),
+                }
+            }
+            let chunk = &case.stream[pos..pos + k];
+            let r = tx.as_ref().unwrap().send_with_fds(&[chunk], &wr);
+            for w in &wr {
+                // SAFETY: our copies of the write ends; the kernel holds the in-flight references.
+                unsafe { libc::close(*w) };
+            }
+            match r {
+                Ok(nsent) if nsent == k => {}
+                other => return Err(format!("sendmsg on the socketpair: {:?}", other.map_err(|e| e.to_string()))),
+            }
+            pos += k;
+            sent_fds = want;
+            if want > 0 {
+                st.fault("F-fdspread");
+                st.probe_n("descriptors_passed", want as u64);
+            }
+        }
+        // the connection reads until the socket has nothing more
+        let mut reads = 0;
+        loop {
+            let r = catch_unwind(AssertUnwindSafe(|| conn.try_read()));
+            st.lib_calls += 1;
+            reads += 1;
+            match r {
+                Err(_) => {
+                    result = Some(Violation::new("C12:panic", step, "try_read panicked (real socket)".into()));
+                    break 'run;
+                }
+                Ok(Ok(())) => {}
+                Ok(Err(micro_http::ConnectionError::StreamReadError(e))) if e.errno() == libc::EAGAIN => break,
+                Ok(Err(e)) => {
+                    result = Some(Violation::new("C12:unexpected-result", step, format!("real socket: try_read returned {:?} after {} bytes", e, pos)));
+                    break 'run;
+                }
+            }
+            if reads > 8 {
+                break;
+            }
+        }
+        let done_now = m.request_ends.iter().filter(|&&e| e <= pos).count();
+        for k in done_before..done_now {
+            if k == done_before {
+                claims.push_back(pipes.len() - claimed);
+                claimed = pipes.len();
+            } else {
+                claims.push_back(0);
+            }
+        }
+        if sent_fds > 0 && (done_now == done_before || done_now - done_before >= 2) {
+            nontrivial = true;
+        }
+        done_before = done_now;
+        sig.u((done_now as u64) << 8 | sent_fds.min(9) as u64);
+        if case.drop_mode != 2 {
+            while let Some(mut req) = conn.pop_parsed_request() {
+                let files = std::mem::take(&mut req.files);
+                let exp = claims.pop_front().unwrap_or(0);
+                if files.len() != exp {
+                    result = Some(Violation::new("C12:wrong-descriptor-count", step, format!("real socket: request carries {} descriptor(s), expected {}", files.len(), exp)));
+                    break 'run;
+                }
+                for (j, f) in files.iter().enumerate() {
+                    if ino_of(f.as_raw_fd()) != pipes[delivered + j].ino {
+                        result = Some(Violation::new("C12:wrong-descriptor-identity", step, "real socket: descriptor order or identity wrong".into()));
+                        break 'run;
+                    }
+                    if f.as_raw_fd() == 0 {
+                        st.probe("descriptor_number_zero_passed");
+                    }
+                }
+                delivered += files.len();
+                kept.extend(files);
+            }
+        }
+    }
+    if result.is_none() {
+        if case.eof {
+            drop(tx.take());
+            let r = catch_unwind(AssertUnwindSafe(|| conn.try_read()));
+            match r {
+                Ok(Err(micro_http::ConnectionError::ConnectionClosed)) => {}
+                Ok(other) => result = Some(Violation::new("C12:unexpected-result", step, format!("real socket: at EOF try_read returned {:?}", other))),
+                Err(_) => result = Some(Violation::new("C12:panic", step, "try_read panicked at EOF (real socket)".into())),
+            }
+        }
+        while let Some(mut req) = conn.pop_parsed_request() {
+            let files = std::mem::take(&mut req.files);
+            let exp = claims.pop_front().unwrap_or(0);
+            if files.len() != exp && result.is_none() {
+                result = Some(Violation::new("C12:wrong-descriptor-count", step, format!("real socket: a request popped late carries {} descriptor(s), expected {}", files.len(), exp)));
+            }
+            delivered += files.len();
+            kept.extend(files);
+        }
+    }
+    drop(kept);
+    drop(conn);
+    drop(tx);
+    if result.is_none() {
+        for (k, p) in pipes.iter().enumerate() {
+            if !pipe_eof(p.rd) {
+                result = Some(Violation::new("C12:leak", step, format!("real socket: descriptor #{} is still open after everything was dropped", k)));
+                break;
+            }
+        }
+    }
+    Ok(RunOut { violation: result, nontrivial, sig: sig.get() ^ 0x5EA1, trace_hash: sig.get() ^ 0x5EA1 })
 }
 
 fn cleanup(conn: &mut Conn, pipes: &mut Vec<Pipe>, new_pipes: &mut Vec<Pipe>) {
